@@ -402,7 +402,7 @@ func (x *Explorer) ValidateOnRealAtomix(k int) (int, string) {
 	for _, s := range x.visited {
 		ok := s.parent != nil
 		for n := s; n.parent != nil; n = n.parent {
-			if n.via.Kind == "crash" || n.via.Kind == "restart" || n.via.Kind == "interleave" || n.via.Kind == "hold" || n.via.Kind == "release" {
+			if n.via.Kind == "crash" || n.via.Kind == "restart" || n.via.Kind == "interleave" || n.via.Kind == "hold" || n.via.Kind == "release" || len(n.via.Map) > 0 {
 				ok = false
 				break
 			}
